@@ -170,6 +170,7 @@ def body(S, loop, part):
             elif a == "replace_self":
                 key = em.replace_handler(slot_event[slot], keys[slot][1], priority=prio[slot], **({"v": regv[slot]} if slot in regv else {}))
                 keys[slot] = (key, keys[slot][1])
+                registry[slot_event[slot]].add(slot)          # replace_handler registers it (again) even if a sibling had removed it
             cur[0], cur_iid[0] = prev_cur, prev_iid
             active[0] = False
         return handler
